@@ -1,6 +1,6 @@
 import Driver.Util
 import Slock.Model.MsWheel
-/-! Driver command for M-MSWHEEL:  `msw <startSecond> <T>`  →  `fire` | `second:<deadline>` -/
+/-! Driver command for M-MSWHEEL:  `msw <startSecond> <T>`  →  `fire` | `second:<deadline>`;  `mswf <startSecond> <T>` → `<next> defer:<seconds>` -/
 namespace Driver
 open Slock.Ms
 
@@ -9,6 +9,10 @@ def handleMs (toks : List String) : Option String :=
   | ["msw", s, t] =>
     match s.toNat?, t.toNat? with
     | some s, some t => some (showNext (afterPark s t))
+    | _, _ => some "bad-op"
+  | ["mswf", s, t] =>   -- a replicated millisecond hold on a follower: where it goes after the park, and the re-arm when it is reached
+    match s.toNat?, t.toNat? with
+    | some s, some t => some s!"{showNext (afterPark s t)} defer:{followerDefer 0}"
     | _, _ => some "bad-op"
   | "msw" :: _ => some "bad-op"
   | _ => none
